@@ -10,11 +10,13 @@ RULE = ("LIFE histories in generated projects whose file contents come from the 
         "compared byte for byte with the template model (literals verbatim + slots). LOCALE leg: the same update is run "
         "in a child interpreter under LC_ALL=C with UTF-8 mode off on a copy of the directory and must give identical bytes. "
         "distinct_nontrivial = distinct (pattern part set, flags, clock relation, region kinds, regimes, walk result) of "
-        "successful real updates that were walked.")
+        "successful real updates that were walked."
+        " COMMITFAIL: real git's pre-commit hook refuses the release commit (plainly, after touching a file, or once) while an unconfigured tracked file holds uncommitted work under --allow-dirty; that file must keep its bytes.")
 ASSUMPTIONS = ["template model of file content; filler never contains '@' or line terminators",
                "surrogates / invalid UTF-8 are not generated (bumpver reads files as UTF-8 by design)"]
 COMPONENTS = {"bumpver cli update, rewrite": "real", "files": "real scratch directory", "clock": "simulated",
-              "process locale": "real child interpreter for the ASCII-locale leg"}
+              "process locale": "real child interpreter for the ASCII-locale leg",
+              "git (COMMITFAIL)": "real git 2.39 with a real /bin/sh pre-commit hook", "open() for writing (WRITEFAULT)": "fault seam"}
 CAMPAIGNS = [Life("C04", quick=9000, thorough=400000, mode="bytes", sv_rate=0.05, vcs="none"),
              Locale("C04", quick=320, thorough=16000), WriteFault("C04", quick=1500, thorough=60000),
              CommitFail("C04", quick=160, thorough=4000)]
